@@ -35,6 +35,14 @@ CHECKS.update({
    text="Generated push/pop programs over 1-6 streams check per-stream FIFO, message atomicity, the round-robin round law and the WFQ normalised-service bound over every interval in which two streams are continuously backlogged; simulated runs check framing kind and fragment TSN/FSN order on the wire; wrong-kind chunks must be answered with a protocol-violation ABORT.",
    note="Fairness laws are evaluated on pop histories of the queue driven the way the association drives it (peek then pop).", ref="6/C17"),
 })
+CHECKS.update({
+ "C06": dict(level="exploration", technique="property-based testing (rapid): two-endpoint simulation with per-stream reliability policies and message-targeted loss; delivery oracles (subset/subsequence/at-most-once/byte-identical, DCEP exact) and wire oracles (transmissions per TSN vs policy)",
+   text="Generated streams with every ordered/unordered x reliable/rexmit-N/timed-L policy, fragmented and DCEP messages, loss aimed at chosen messages and fragments (including every transmission) and at FORWARD-TSN itself; reads must be byte-identical written messages at most once and in order where required, reliable and DCEP data exactly once, and the wire must respect N+1 transmissions / one transmission after the lifetime.",
+   note="Policies are fixed per stream before its first write. Known finding pr-partial-message-not-abandoned is excluded by signature (excess transmissions before all fragments of the message were sent once).", ref="6/C06"),
+ "C07": dict(level="exploration", technique="property-based testing (rapid): same engine as C06 with position control of abandoned messages (first on stream, last, partly received, loss of FORWARD-TSN, receiver stream configured or default); delivery, liveness, window-restoration and FORWARD-TSN content oracles",
+   text="Every message never hit by a fault, every reliable-stream and every DCEP message must be delivered; after heal + bound the sender's buffered amount is 0 and both advertised windows are back to the full buffer; FORWARD-TSN never covers unacknowledged reliable/DCEP data and names only sequence numbers of covered ordered (or flagged-unordered) messages.",
+   note="'Not hit by a fault' is the executable reading of 'every chunk reached the receiver while its window was open'.", ref="6/C07"),
+})
 NOT_YET = {}
 props = [json.loads(l) for l in open(os.path.join(V, "properties.jsonl"))]
 checks = []
